@@ -477,6 +477,60 @@ def segmentOk (closedTxt : String) (evs : List String) : Option String :=
       else go r rows closed completes
   go evs 0 false 0
 
+/-- the statement scripts of a query text (hex as it appears in `P:`/`X:` events): per statement
+    the column count, the operations and whether the statement function returns an error -/
+def scriptStmts (hexq : String) : List (Nat × List String × Bool) :=
+  match unhex hexq with
+  | none => []
+  | some q =>
+    let txt := String.ofList (q.map fun b => Char.ofNat b.toNat)
+    (txt.splitOn "|").map fun st =>
+      match st.splitOn "/" with
+      | cols :: _ :: ops :: ret :: _ =>
+        ((if cols.isEmpty then 0 else (cols.splitOn ",").length),
+         (if ops.isEmpty then [] else ops.splitOn ";"), ret.startsWith "E")
+      | _ => (0, [], false)
+
+/-- C05 on the script level, for the writer-only programs of the `simple` campaign (operations
+    r/c/e/w, one observation each): (a) no statement of a query runs after an earlier statement
+    of the same query returned an error; (b) a row with the wrong number of values is refused -/
+def scriptChecks (evs : List String) : Option String :=
+  let rec go (evs : List String) (failed : List String) : Option String :=
+    match evs with
+    | [] => none
+    | e :: r =>
+      if e.startsWith "P:" then go r []      -- a new query: forget the failures of the previous one
+      else if e.startsWith "X:" then
+        match (e.drop 2).toString.splitOn ":" with
+        | hexq :: idx :: _ =>
+          let sts := scriptStmts hexq
+          let k := idx.toNat?.getD 0
+          if failed.contains hexq then some ("statement-ran-after-a-failed-statement:idx=" ++ idx)
+          else
+            let (ncols, ops, retErr) := sts.getD k (0, [], false)
+            -- observations of this execution: the events up to the next P:/X:
+            let obs := r.takeWhile fun x => !(x.startsWith "P:" ∨ x.startsWith "X:")
+            let plain := ops.all fun o => o.startsWith "r:" ∨ o.startsWith "c:" ∨ o = "e" ∨ o = "w" ∨ o = "e?" ∨ o.startsWith "r" ∨ o.startsWith "c"
+            let bad : Option String :=
+              if !plain then none else
+              (ops.zip obs).findSome? fun (o, ob) =>
+                let body := if o.endsWith "?" then (o.dropEnd 1).toString else o
+                if body.startsWith "r:" then
+                  let vals := (body.drop 2).toString
+                  let n := if vals.isEmpty then 0 else (vals.splitOn ",").length
+                  if n ≠ ncols ∧ ob = "r+" then some ("wrong-arity-row-accepted:values=" ++ toString n ++ ":columns=" ++ toString ncols)
+                  else none
+                else none
+            match bad with
+            | some w => some w
+            | none =>
+              -- did this execution run to its end? then its `ret` decides
+              let completed := obs.length = ops.length
+              go r (if retErr ∧ completed then hexq :: failed else failed)
+        | _ => go r failed
+      else go r failed
+  go evs []
+
 /-- C05 oracle on the implementation's transcript and handler observations -/
 def oracleSimple (c : CaseIn) (chunks : List Bytes) (rkv : KV) : Option String :=
   let frames := implFrames chunks
@@ -501,7 +555,7 @@ def oracleSimple (c : CaseIn) (chunks : List Bytes) (rkv : KV) : Option String :
   else match cycles.find? (fun cy => !cycleOk cy) with
     | some cy => some ("C05:cycle-grammar:" ++ String.ofList cy)
     | none =>
-      match sgs.findSome? (segmentOk closedTxt) with
+      match (sgs.findSome? (segmentOk closedTxt)).orElse (fun _ => scriptChecks evs) with
       | some why => some ("C05:writer:" ++ why)
       | none =>
         let nD := types.countP (· = 'D')
@@ -682,6 +736,8 @@ def oracleMulti (c : CaseIn) (rkv : KV) : Option String :=
   let evs := (get rkv "ev").splitOn "/"
   if get rkv "umap" ≠ "same" then some "C12:user-supplied-parameter-map-modified"
   else if get rkv "retain" ≠ "ok" then some ("C18:retained-data-" ++ get rkv "retain")
+  else if (get rkv "solo").startsWith "diff" then
+    some ("C15:connection-differs-from-the-same-traffic-served-alone:" ++ get rkv "solo")
   else (ins.zip evs).findSome? fun (hx, ev) =>
     let inp := (unhex hx).getD []
     match rd32 inp with
@@ -691,6 +747,14 @@ def oracleMulti (c : CaseIn) (rkv : KV) : Option String :=
       let cp := (readClientParams (body.length + 1) body []).getD []
       let user := (lookup (ascii "user") cp).getD []
       let want := hexOf (ascii "session_authorization") ++ "=" ++ hexOf user
+      -- the validator must be asked about THIS connection's user and database
+      let db := (lookup (ascii "database") cp).getD []
+      let vbad := ((ev.splitOn ";").filter (·.startsWith "V:")).findSome? fun e =>
+        match (e.drop 2).toString.splitOn ":" with
+        | d :: u :: _ => if u = hexOf user ∧ d = hexOf db then none
+                         else some ("C12:validator-got-another-connections-parameters:user=" ++ u ++ ":want=" ++ hexOf user)
+        | _ => none
+      vbad.orElse fun _ =>
       ((ev.splitOn ";").filter fun e => e.startsWith "P:" ∨ e.startsWith "X:").findSome? fun e =>
         match between e "]s[" "]" with
         | some sp => if (sp.splitOn ",").contains want then none
@@ -700,11 +764,17 @@ def oracleMulti (c : CaseIn) (rkv : KV) : Option String :=
 /-- C16 oracle: violations observed directly on the real code under the forced schedule
     (handler started after a Close returned, Close returned while a handler was running, a
     Close that never returned, Serve not returning nil) -/
-def oracleClose (rkv : KV) : Option String :=
+def oracleClose (c : CaseIn) (rkv : KV) : Option String :=
   let evs := (get rkv "ev").splitOn ";"
+  -- a step of the forced schedule that never completed on the real code although the abstract
+  -- protocol completes it (a Close that never reaches its wait or never returns, a deadlock)
+  let mevs := (runCloseModel c).splitOn ";"
+  let stuck := (evs.zip mevs).findSome? fun (e, m) =>
+    if e.endsWith ":hang" ∧ !(m.endsWith ":hang") then some ("C16:step-never-completed:" ++ e ++ ":expected=" ++ m) else none
   match evs.find? (·.startsWith "viol=") with
   | some v => if v = "viol=-" then
-      (if evs.contains "serve=nil" then none else some "C16:Serve-did-not-return-nil")
+      (if stuck.isSome then stuck
+       else if evs.contains "serve=nil" then none else some "C16:Serve-did-not-return-nil")
     else some ("C16:" ++ v)
   | none => some "C16:no-verdict"
 
@@ -717,11 +787,11 @@ def oracle (c : CaseIn) (chunks : List Bytes) (rkv : KV) : Option String :=
   else if c.camp = "simple" then oracleSimple c chunks rkv
   else if c.camp = "values" then oracleValues c chunks
   else if c.camp = "hostile" ∨ c.camp = "alloc" then oracleHostile c rkv
-  else if c.camp = "tls" then oracleTls c chunks rkv
+  else if c.camp = "tls" then (oracleTls c chunks rkv).orElse fun _ => oracleExpect c chunks rkv
   else if c.camp = "ext" then oracleExt c chunks rkv
   else if c.camp = "auth" then oracleAuth c chunks rkv
   else if c.camp = "multi" then oracleMulti c rkv
-  else if c.camp = "close" then oracleClose rkv
+  else if c.camp = "close" then oracleClose c rkv
   else if c.camp = "heap" then
     (if (get rkv "ev").endsWith "views=ok" then none else some "C18:view-returned-by-accessor-overwritten")
   else if c.camp = "retain" then
@@ -737,7 +807,11 @@ def processLine (line : String) : String :=
     let rkv := parseKV rs
     let c := parseCase ckv
     let direct := get ckv "direct"
-    let m := if !(get ckv "conns").isEmpty then runMultiModel c
+    -- `nomodel=1`: the input was too large to hand to the list-based model (the 16 MiB default
+    -- limit boundary); only the expectation oracle runs, on the implementation's output
+    let nomodel := get ckv "nomodel" = "1"
+    let m := if nomodel then ({ out := "", ev := "", ending := "", unsup := true, stuffed := false } : ModelOut)
+             else if !(get ckv "conns").isEmpty then runMultiModel c
              else if direct.isEmpty then (runModel c).1 else runDirect c direct
     let iout := get rkv "out"
     let iev0 := get rkv "ev"
